@@ -29,7 +29,7 @@ def handle (l : Line) : Option (Except String String) :=
   | "jwt.scrape" => some (.ok "accept\tscrape")
   -- the hook's own refresh loop and Stop: a token under a key that is not published is refused (`Jwt.run` with
   -- the old key set), accepted once a refresh has picked the key up, and after Stop nothing fetches any more
-  | "jwt.lifecycle" => some (.ok "before=invalid refreshed_in_background=1 stopped=1 quiet_after_stop=1 second_stop=1\tlifecycle")
+  | "jwt.lifecycle" => some (.ok "before=invalid refreshed_in_background=1 fetch_in_flight_at_stop=1 stopped=1 prompt=1 goroutines_left=0 quiet_after_stop=1 second_stop=1\tlifecycle")
   | _ => none
 
 end DJwt
